@@ -76,6 +76,13 @@ type Site struct {
 	Index      int
 	Pos        token.Pos
 	Missing    bool
+	Invoked    map[string]invokedFn // function-typed arguments the callee is declared to call
+}
+
+// invokedFn: what is known about the calls a callee made to a function it was handed.
+type invokedFn struct {
+	Invoked string // Bool term: it was called at least once
+	Results []Val  // results of the last call
 }
 
 type BState struct {
@@ -130,6 +137,8 @@ type FnTrans struct {
 	idxCands []Val
 	pureKnown, pureVal bool
 	storeSites map[*ssa.Store][]string
+	eventSites map[eventKey][]string // channel operations named by the contract
+	eventAliases map[string]bool
 	missingSites []SiteDecl
 	floatUsed bool
 	usedGlobalInvs map[string]Clause
@@ -152,6 +161,7 @@ type FnTrans struct {
 	deferredEx []func() string // goal existentials whose instances are chosen at oblige time
 	obWit    []Val           // witness terms named by hypotheses while instantiating for the current obligation
 	deferEx  bool
+	stableFlds []stableFld
 	concats  [][3]string     // string concatenations translated so far (left, right, result)
 	wantTy   types.Type      // Go type of the quantified variable candidates are being chosen for
 	witTerms []Val           // every witness term hypotheses have named (instances for goal existentials)
@@ -380,9 +390,27 @@ func (tr *FnTrans) val(v ssa.Value) Val {
 		return Val{T: name, Ty: c.Type()}
 	case *ssa.Builtin:
 		return Val{T: "nil", Ty: c.Type()}
-	case *ssa.Parameter, *ssa.FreeVar:
+	case *ssa.Parameter:
 		x := tr.introduce(v.Name(), v.Type(), "true", "param")
 		tr.vals[v] = x
+		return x
+	case *ssa.FreeVar:
+		x := tr.introduce(v.Name(), v.Type(), "true", "captured variable")
+		tr.vals[v] = x
+		if capturedByRef(c) {
+			// the address of a variable of the enclosing function: never nil
+			tr.assume("true", fmt.Sprintf("(not (= %s nil))", x.T), "captured variable "+v.Name()+" lives in the enclosing function")
+			// it is a variable of its own (a root location), different from the other captured variables
+			tr.assume("true", fmt.Sprintf("((_ is loc) %s)", x.T), "captured variable "+v.Name()+" is a variable, not part of another object")
+			for _, o := range c.Parent().FreeVars {
+				if o == c {
+					break
+				}
+				if ov, ok := tr.vals[o]; ok && capturedByRef(o) {
+					tr.assume("true", fmt.Sprintf("(not (= %s %s))", x.T, ov.T), "distinct captured variables")
+				}
+			}
+		}
 		return x
 	}
 	panic(unsupported(fmt.Sprintf("value %s (%T) used before definition", v.Name(), v)))
@@ -1239,4 +1267,132 @@ func (tr *FnTrans) ifaceAxioms() []string {
 		}
 	}
 	return out
+}
+
+// capturedByRef: the free variable holds the address of a variable of the enclosing function (Go
+// closures capture variables, not values; go/ssa passes the value only when the variable is never
+// reassigned).
+func capturedByRef(fv *ssa.FreeVar) bool {
+	fn := fv.Parent()
+	if fn == nil || fn.Parent() == nil {
+		return false
+	}
+	idx := -1
+	for i, f := range fn.FreeVars {
+		if f == fv {
+			idx = i
+		}
+	}
+	if idx < 0 {
+		return false
+	}
+	for _, b := range fn.Parent().Blocks {
+		for _, in := range b.Instrs {
+			mc, ok := in.(*ssa.MakeClosure)
+			if !ok || mc.Fn != fn || idx >= len(mc.Bindings) {
+				continue
+			}
+			switch bv := mc.Bindings[idx].(type) {
+			case *ssa.Alloc:
+				return true
+			case *ssa.FreeVar:
+				return capturedByRef(bv)
+			}
+			return false
+		}
+	}
+	return false
+}
+
+// immutableCapture: the captured variable is assigned only before the function literal is created
+// (in the enclosing function, at a point that dominates the literal) and never through any literal
+// that captures it, and its address is used for nothing else. Its value is then constant for the
+// whole life of the literal, whatever runs concurrently.
+func immutableCapture(fv *ssa.FreeVar) bool {
+	fn := fv.Parent()
+	idx := -1
+	for i, f := range fn.FreeVars {
+		if f == fv {
+			idx = i
+		}
+	}
+	if idx < 0 || fn.Parent() == nil {
+		return false
+	}
+	var mc *ssa.MakeClosure
+	for _, b := range fn.Parent().Blocks {
+		for _, in := range b.Instrs {
+			if m, ok := in.(*ssa.MakeClosure); ok && m.Fn == fn {
+				mc = m
+			}
+		}
+	}
+	if mc == nil || idx >= len(mc.Bindings) {
+		return false
+	}
+	al, ok := mc.Bindings[idx].(*ssa.Alloc)
+	if !ok {
+		return false
+	}
+	pos := func(in ssa.Instruction) int {
+		for i, x := range in.Block().Instrs {
+			if x == in {
+				return i
+			}
+		}
+		return -1
+	}
+	for _, ref := range *al.Referrers() {
+		switch r := ref.(type) {
+		case *ssa.Store:
+			if r.Addr != al {
+				return false // the address itself is stored somewhere
+			}
+			if r.Block() == mc.Block() {
+				if pos(r) > pos(mc) {
+					return false
+				}
+			} else if !r.Block().Dominates(mc.Block()) {
+				return false
+			}
+		case *ssa.UnOp:
+			if r.Op != token.MUL {
+				return false
+			}
+		case *ssa.DebugRef, *ssa.FieldAddr:
+		case *ssa.MakeClosure:
+			cf, ok := r.Fn.(*ssa.Function)
+			if !ok {
+				return false
+			}
+			for i, b := range r.Bindings {
+				if b != al || i >= len(cf.FreeVars) {
+					continue
+				}
+				for _, fr := range *cf.FreeVars[i].Referrers() {
+					switch x := fr.(type) {
+					case *ssa.Store:
+						if x.Addr == cf.FreeVars[i] {
+							return false
+						}
+					case *ssa.UnOp, *ssa.DebugRef, *ssa.FieldAddr:
+					default:
+						return false
+					}
+				}
+			}
+		default:
+			return false
+		}
+	}
+	return true
+}
+
+// stableFld: one field of one object that is assigned only where the object is created.
+type stableFld struct {
+	addr  string
+	ty    types.Type
+	owner types.Type
+	field string
+	src   string
 }
